@@ -11,9 +11,9 @@ func init() {
 	register("C15", "Decides structural necessary conditions of 'configuration validation is total and the instance matches its configuration': "+
 		"(R2) for every rule of the statement there is a rejecting path: under each cause, written as a conjunction of branch-condition values over the configuration fields (log id 0; mirror without public key / with private key; log without private key; unparsable keys; frozen STH without public key, malformed, or not verifying under the configured public key; reject-expired ∧ reject-unexpired; unknown EKU name; invalid start/limit timestamp; limit < start decided on the time.Time values themselves; negative or mis-ordered merge delays on every sample ordering of (max, expected, 0); CTFE storage selected with an empty connection string, or — decided on sample strings, by valuating every branch condition whose outcome the concrete string fixes (a small evaluator of string code: constants, operators, len / index / slice, the pure functions of package strings, φ-nodes through the conditions the string decides, module helpers through their bodies), however the tests are written — one for an unsupported driver, a mysql one that lacks the scheme separator \"://\", one whose data source the driver's parser rejects; and a sample string can be accepted exactly when storage.NewIssuanceChainStorage and the functions it hands the string to can get as far as sql.Open with it (a driver name that is only the beginning of the scheme, a second separator, a key/value string without scheme are refused by the storage opener, so they must be refused here); every name of the EKU list is asked: each turn of the loop passes the name-table test and the loop is left towards acceptance only when the list is exhausted (the same for every element loop of the set validators); empty or duplicate prefix, where a prefix is empty exactly when (*logInfo).Handlers serves it under the paths of the empty string and two prefixes are the same exactly when Handlers serves them under the same paths (sample prefixes with and without leading / trailing slashes, evaluated through both functions); duplicate tree id; empty or duplicate backend name / spec; undefined backend; duplicate (backend, id)) no success return of the validator is reachable, and moving the decisive atom of the cause to a good value makes success reachable again; every duplicate test asks a set made in the validator itself, is passed on every turn of the element loop, identifies an element by exactly what the statement says (a single log server: the tree id alone; a multi-backend set: backend name and tree id of the same element; the prefix; the backend name; the backend spec — fields of a struct key count when filled on every path to the test, under the facts that the nil constant is nil and a fresh map is non-nil), records the very key it tests in the very set it tests on every turn and on the not-seen edge only, and a formatted key is an injective encoding; both file loaders reject input that parses neither as text nor as binary protobuf and return the parsed message; "+
 		"(R3) Handlers() removes exactly the add-chain and add-pre-chain entries, exactly when IsReadonly ∨ IsMirror; addChain/addPreChain are bound to a path nowhere else; Instance.Handlers is written only by SetUpInstance from logInfo.Handlers(prefix); "+
-		"(R4) newLogInfo selects FrozenSTHGetter{sth: validated frozen STH} whenever a frozen STH is configured (before the mirror case), MirrorSTHGetter for mirrors, LogSTHGetter otherwise; sthGetter / FrozenSTHGetter.sth / Instance.STHGetter have no other writer; FrozenSTHGetter.GetSTH returns exactly the stored STH; MirrorSTHGetter.GetSTH bounds the storage query by the backend root's tree size and gates both errors; setUpLogInfo rejects a non-mirror without roots and any public key that is of an unknown kind or differs from the signer's; "+
+		"(R4) newLogInfo selects FrozenSTHGetter{sth: validated frozen STH} whenever a frozen STH is configured (before the mirror case), MirrorSTHGetter for mirrors, LogSTHGetter otherwise; sthGetter / FrozenSTHGetter.sth / Instance.STHGetter have no other writer; FrozenSTHGetter.GetSTH returns exactly the stored STH; every STH a success return of MirrorSTHGetter.GetSTH can serve is within the backend tree of THAT call: it is the answer of the getter's own storage to a question bounded by the tree size of the root fetched in this call (every lookup, however many), or an STH the getter remembered from an earlier call (a field of the getter read directly or through an accessor; a private whole-value copy counts as the original) that is served only where its own tree size was compared with this call's backend root and did not come out larger, the size compared being read from the very value served (or under a mutex held from the test to the use); what such a field holds is nil, an answer of the storage (or a private copy) stored only after that answer's error came out nil, and all its reads and writes hold one mutex of the getter; every error of a call in GetSTH blocks its success returns (also when results travel through result cells of a function with a deferred call); setUpLogInfo rejects a non-mirror without roots and any public key that is of an unknown kind or differs from the signer's; "+
 		"(R5) the validation options and storage parameters of the instance are the validated configuration's fields (field-by-field provenance). "+
-		"(R1) no unguarded use of an optional configuration part, no unguarded constant index on a library call's result, and every configuration string handed to a storage driver's parser is derived from its field by steps that cannot panic; NOT covered: that MirrorSTHStorage implementations honour maxTreeSize, totality/strictness of mysql.ParseDSN, pgconn.ParseConfig, protobuf parsing and key parsing, acceptance of every well-formed configuration beyond may-reachability of the success return, connection strings and prefixes other than the sample families (the clauses are decided for the listed samples, not for all strings), whether a database answers at the address a connection string names, flag handling in the ct_server binary.",
+		"(R1) no unguarded use of an optional configuration part, no unguarded constant index on a library call's result, and every configuration string handed to a storage driver's parser is derived from its field by steps that cannot panic; NOT covered: that MirrorSTHStorage implementations honour maxTreeSize, that a remembered STH is still the newest one the storage holds for its size (a mirror that skips the lookup may serve an older timestamp, or a smaller STH than the storage could offer — the statement bounds the served STH from above only), a cache keyed by anything but the remembered STH's own tree size (fails closed as undecided), writes to the TreeSize of an STH object after it was remembered, totality/strictness of mysql.ParseDSN, pgconn.ParseConfig, protobuf parsing and key parsing, acceptance of every well-formed configuration beyond may-reachability of the success return, connection strings and prefixes other than the sample families (the clauses are decided for the listed samples, not for all strings), whether a database answers at the address a connection string names, flag handling in the ct_server binary.",
 		runC15)
 }
 
@@ -666,16 +666,9 @@ func c15Getters(r *Run) {
 		// arguments, or inside a struct it reads them from: the terms of its RPC are rendered in the caller's terms) —
 		// or, where that helper's body stands in GetSTH itself, decoded here from the backend's answer
 		root := c15BackendRoot(r, fn, k)
-		if c := r.OneCall(fn, k+"storage", "iface(trillian/ctfe.MirrorSTHStorage).GetMirrorSTH"); c != nil {
-			r.ExpectArg(c, k+"storage.receiver", 0, "p0."+fStorage)
-			if root != "" {
-				r.ExpectArg(c, k+"storage.maxTreeSize", 2, root+".TreeSize")
-			}
-		}
-		r.ErrorsGate(fn, k+"errors", "*", 2)
-		for _, ret := range sgOkReturns(fn) {
-			r.Check(k+"returns-storage-sth", glob("iface(trillian/ctfe.MirrorSTHStorage).GetMirrorSTH(*)#0", r.D.D(ret.Results[0])), r.Where(ret), "returns "+r.D.D(ret.Results[0]))
-		}
+		// what a success return can serve: the storage's answer to this call's bounded question, or an STH remembered
+		// from an earlier call under a test of its tree size against this call's backend root (rules_t8c15.go)
+		c15MirrorServes(r, fn, k, root, fStorage)
 	}
 	if fn := r.Fn("(*trillian/ctfe.logInfo).getSTH"); fn != nil {
 		if c := r.OneCall(fn, "logInfo.getSTH:getter", "iface(trillian/ctfe.STHGetter).GetSTH"); c != nil {
@@ -736,7 +729,7 @@ func c15SetUp(r *Run) {
 			continue
 		}
 		optsAlloc = a
-		r.ExpectFields(fn, k+"validationOpts", CallArgs(c)[1], map[string]string{
+		r.ExpectFieldsVia(fn, k+"validationOpts", CallArgs(c)[1], map[string]string{ // (through whole-struct copies and constructors: rules_t8c18.go)
 			"trustedRoots":    "x509util.NewPEMCertPool()",
 			"rejectExpired":   "*Config.RejectExpired || *GetRejectExpired(*)",
 			"rejectUnexpired": "*Config.RejectUnexpired || *GetRejectUnexpired(*)",
@@ -746,8 +739,13 @@ func c15SetUp(r *Run) {
 		})
 		// the window bounds: the fields that ValidateChain compares as start / limit (see c18WindowFields)
 		if fStart, fLimit := c18WindowFields(r); a != nil {
-			r.ExpectStores(fn, k+"validationOpts.notAfterStart", "&("+r.D.allocName(a)+"."+fStart+")", "*Validated.NotAfterStart", 1)
-			r.ExpectStores(fn, k+"validationOpts.notAfterLimit", "&("+r.D.allocName(a)+"."+fLimit+")", "*Validated.NotAfterLimit", 1)
+			c15Bound := func(key, field, want string) { // the configured pointer itself or an exact private copy of its instant (C18.R4, rules_t8c18.go)
+				if c18ExpectBound(r, fn, key, a, field, want) == 0 {
+					r.Fail(key, r.FnPos(fn), fmt.Sprintf("expected >= 1 stores to &(%s.%s) in %s (or in the function that builds the struct), found 0", r.D.allocName(a), field, FuncName(fn)))
+				}
+			}
+			c15Bound(k+"validationOpts.notAfterStart", fStart, "*Validated.NotAfterStart")
+			c15Bound(k+"validationOpts.notAfterLimit", fLimit, "*Validated.NotAfterLimit")
 		} else {
 			r.Fail(k+"validationOpts.notAfterStart", r.FnPos(fn), "undecided: the validation options are not built in a local allocation")
 		}
